@@ -65,6 +65,18 @@ def run_case(case):
     idx = {r["name"]: k for k, r in enumerate(regs)}
     model = MuxModel(regs, dw)
 
+    def coverage():
+        for r in regs:
+            mon.ok("register_covers_all_pins", (r["end"] - r["start"]) * dw >= r["width"],
+                   f"register {r['name']} is {r['width']} bits wide but the memory map gives it only addresses "
+                   f"[{r['start']},{r['end']}) of {dw} bits: some pins have no bus address")
+            mon.ok("register_covers_all_pins", getattr(bus.memory_map.decode_address(r["start"]), "element").width == r["width"],
+                   f"register {r['name']}: element width differs from the documented {r['width']} bits")
+
+    mon.run(coverage)
+    if mon.violations:
+        return mon.result(summary={"pins": pins, "dw": dw, "stages": stages, "aw": aw})
+
     def data_hook(i, r):
         return bits(rng, r["width"])
 
